@@ -71,7 +71,9 @@ TrMsg ==
          v5  == IF \E X \in chg : e.post.lookup[X] # None /\
                       ~(e.post.lookup[X] = e.c /\ e.c \in cs /\ e.post.conns[e.c].authd /\ e.post.conns[e.c].cid = X)
                 THEN {V("InstalledWithoutAuth", MsgShape(e))} ELSE {}
-     IN /\ viol' = viol \cup v1 \cup v2 \cup v3 \cup v4 \cup v5
+         \* a clause is reported once per trace, with the detail of the message at which it was first violated
+         new == {v \in v1 \cup v2 \cup v3 \cup v4 \cup v5 : v.c \notin {w.c : w \in viol}}
+     IN /\ viol' = viol \cup new
         /\ proved' = pv
         /\ known' = IF e.out.newid # None THEN known \cup {e.out.newid} ELSE known
         /\ issuedN' = IF e.out.nonce > 0 THEN issuedN \cup {<<e.c, e.out.nonce>>} ELSE issuedN
